@@ -23,6 +23,12 @@
 (*   store_true           : only A (= True)                                *)
 (*   store_const          : only B (= False, --no-sendfile)                *)
 (*   fileonly, hook       : nothing (no command-line flag)                 *)
+(* Below the built-in default sits one more level for a few settings: a    *)
+(* variable of the process environment that stands in while no source      *)
+(* mentions the setting (SENDFILE; WEB_CONCURRENCY, PORT and               *)
+(* FORWARDED_ALLOW_IPS shape the defaults of workers, bind and             *)
+(* forwarded_allow_ips).  fb = "set": that variable is present; fbused:    *)
+(* the value in force still comes from it.                                 *)
 (* Dev: {} is the intended design = the documented order.                  *)
 (***************************************************************************)
 EXTENDS Integers, Sequences, FiniteSets, TLC
@@ -42,7 +48,8 @@ CanSay(kind, m) ==
   ELSE IF kind = "store_const" THEN m = "B"
   ELSE FALSE
 
-Cases == {c \in [kind : Kinds, fw : MLow, file : MLow, env : MHigh, cli : MHigh, files : SUBSET Namings] :
+Cases == {c \in [kind : Kinds, fw : MLow, file : MLow, env : MHigh, cli : MHigh, files : SUBSET Namings,
+                 fb : {"no", "set"}] :
             /\ CanSay(c.kind, c.env) /\ CanSay(c.kind, c.cli)
             /\ (c.files = {} => c.file = "no")}
 
@@ -55,7 +62,7 @@ Ment(c, src) == IF src = "fw" THEN c.fw
 
 Order == IF "EnvBeforeFile" \in Dev THEN <<"fw", "env", "file", "cli">> ELSE Srcs
 
-S0(c) == [case |-> c, k |-> 1, eff |-> "D", status |-> "run", gen |-> 0]
+S0(c) == [case |-> c, k |-> 1, eff |-> "D", status |-> "run", gen |-> 0, fbused |-> (c.fb = "set")]
 
 Step(s) ==
   LET src == Order[s.k]
@@ -67,7 +74,8 @@ Step(s) ==
         ELSE [s EXCEPT !.status = "failed"])
   ELSE IF m = "no" \/ (m = "dflt" /\ src = "cli" /\ "CliIfDifferent" \in Dev)
   THEN [s EXCEPT !.k = s.k + 1, !.status = nxt]
-  ELSE [s EXCEPT !.k = s.k + 1, !.status = nxt, !.eff = IF m = "dflt" THEN "D" ELSE m]
+  ELSE [s EXCEPT !.k = s.k + 1, !.status = nxt, !.eff = IF m = "dflt" THEN "D" ELSE m,
+                 !.fbused = IF "FallbackFirst" \in Dev THEN s.fbused ELSE FALSE]
 
 VARIABLE s
 Init == \E c \in Cases : s = S0(c)
@@ -79,7 +87,8 @@ Reload ==
   /\ s.status = "done" /\ s.gen = 0
   /\ \E f \in {"no", "A", "B"} :
        s' = [case |-> [s.case EXCEPT !.file = IF s.case.files = {} THEN "no" ELSE f], k |-> 1,
-             eff |-> IF "ReloadKeepsValues" \in Dev THEN s.eff ELSE "D", status |-> "run", gen |-> 1]
+             eff |-> IF "ReloadKeepsValues" \in Dev THEN s.eff ELSE "D", status |-> "run", gen |-> 1,
+             fbused |-> (s.case.fb = "set")]
 Next == (s.status = "run" /\ s' = Step(s)) \/ Reload
 Spec == Init /\ [][Next]_s
 LevelBound == TLCGet("level") <= 12
@@ -110,6 +119,9 @@ MostAuthoritativeWins ==
   s.status = "done" => s.eff = (IF Top(s.case) = "none" THEN "D" ELSE ValueOf(PMent(s.case, Top(s.case))))
 UnmentionedUntouched ==
   [][(s.status = "run" /\ PMent(s.case, Order[s.k]) = "no") => s'.eff = s.eff]_s
+(* the stand-in variable decides only while nothing mentions the setting *)
+FallbackOnlyWhenUnmentioned ==
+  s.status = "done" => (s.fbused <=> (s.case.fb = "set" /\ Top(s.case) = "none"))
 InvalidStopsStartup == AnyBad(s.case) => s.status # "done"
 ValidStarts == (~AnyBad(s.case)) => s.status # "failed"
 =============================================================================
